@@ -6,5 +6,5 @@ CONSTANTS
   MaxSteps = 40
   MaxRuns = 100
   D = 1441440
-INVARIANTS NotAccepted Progress TCount TSum AppliedOK OutsideZero NoBiasZero CapOK
+INVARIANTS Progress TCount TSum AppliedOK OutsideZero NoBiasZero CapOK
 CHECK_DEADLOCK FALSE
